@@ -74,6 +74,11 @@ broken translator obligation):
                `x.start` / `x.stop` / `x` itself where it is known to be a slice.  `yield Rec(...)` for the records in
                RECORD_CALLS keeps the listed arguments (`ReserveResourceConstraint(resource, reservation, chip)`: the
                reservation; the other two are opaque objects passed through).
+  results    : `opt:<t>`: the function returns `None` or a value (`Option`); `raw:<Lean type>` spells a result type
+               out.  `{r for r in Enum if c}` over an IntEnum class is the LIST of the member values satisfying `c`
+               in definition order (a canonical representation of the set); `Rec(a, b, c)` for the records in
+               VALUE_RECORDS (`RoutingTableEntry(routes, key, mask)`) is the tuple of its arguments; `module.NAME`
+               string constants (assigned once) may be `struct` formats.
   events     : return type `ev:<t>`: calls of the methods in EVENT_CALLS (`warnings.warn`, `self._parent._perform_read`,
                `self._parent._perform_write`) are recorded, in order, in a list of `PyEvent` (name, integer arguments,
                bytes argument; the arguments of `warn` - a message - are not modelled) that is the LAST component of
@@ -213,6 +218,8 @@ FUNCS = [
      "exc:none"),
     ("rig/place_and_route/utils.py", "_get_minimal_core_reservations",
      ["ignored", "list:int", "ignored", "var:reservation=optslice"], "gen:tup2"),
+    ("rig/machine_control/machine_controller.py", "unpack_routing_table_entry", ["bytes"],
+     "exc:opt:raw:(List Int × Int × Int) × Int × Int"),
     ("rig/machine_control/machine_controller.py", "MachineController.send_signal", ["obj:", "int", "int"],
      "exc:calls:7"),
     ("rig/machine_control/machine_controller.py", "MachineController.count_cores_in_state", ["obj:", "int", "int"],
@@ -249,6 +256,8 @@ EVENT_CALLS = {"send": (("bytes",), None), "warn": (None, None), "_perform_read"
 # module-level dicts from IntEnum members to IntEnum members, regenerated by another translator module as
 # association lists `List (Nat × Nat)`: `D[k]` raises KeyError when absent
 KEY_DICTS = {"signal_types": "Rig.Gen.LoadSig.signalTypes", "diagnostic_signal_types": "Rig.Gen.LoadSig.diagSignalTypes"}
+# records (named tuples) that may be built as VALUES: name -> number of positional arguments (the tuple of them)
+VALUE_RECORDS = {"RoutingTableEntry": 3}
 # named tuples whose construction may be yielded: the positional arguments kept, keyword arguments ignored
 RECORD_CALLS = {"scpcall": ("callback",), "ReserveResourceConstraint": ((), (1,))}
 # classes whose construction may be returned: the integer arguments kept (by position)
@@ -396,6 +405,10 @@ def lean_ty(t):
         return "List (" + prod(calls_types(t)) + ")"
     if t.startswith("list:rec:"):
         return "List (" + " × ".join(["Int"] * len(t[9:].split(","))) + ")"
+    if t.startswith("opt:"):
+        return "Option " + paren(lean_ty(t[4:]))
+    if t.startswith("raw:"):
+        return t[4:]
     return BASE_TY[t]
 
 
@@ -661,6 +674,10 @@ class Tr(object):
             return "Bool"
         if isinstance(n, ast.Constant) and isinstance(n.value, bytes):
             return "List Int"
+        if isinstance(n, ast.SetComp):
+            return "List Int"
+        if isinstance(n, ast.Call) and self.record_value(n) is not None:
+            return prod([self.tyof(a) for a in self.record_value(n)])
         if isinstance(n, ast.Call) and self.struct_call(n) is not None:
             return "List Int"
         if isinstance(n, ast.Attribute) and isinstance(n.value, ast.Name) and n.value.id == self.objname \
@@ -763,6 +780,9 @@ class Tr(object):
                 and n.func.attr in ("pack", "unpack", "unpack_from") and n.args and not n.keywords):
             return None
         f = n.args[0]
+        if isinstance(f, ast.Attribute) and isinstance(f.value, ast.Name) and f.value.id not in self.lty \
+                and f.attr in self.module_strs.get(f.value.id, {}):
+            f = ast.Constant(value=self.module_strs[f.value.id][f.attr])     # `consts.NAME`: a string constant
         if not (isinstance(f, ast.Constant) and isinstance(f.value, (str, bytes))):
             raise NotImplementedError("struct format that is not a literal")
         fmt = f.value.decode() if isinstance(f.value, bytes) else f.value
@@ -813,7 +833,32 @@ class Tr(object):
             return KEY_DICTS[name], n.slice
         return None
 
+    def record_value(self, n):
+        """`Rec(args...)` / `module.Rec(args...)` for a record in VALUE_RECORDS -> the kept positional arguments"""
+        if not (isinstance(n, ast.Call) and not n.keywords):
+            return None
+        f = n.func
+        name = f.id if isinstance(f, ast.Name) else f.attr if (
+            isinstance(f, ast.Attribute) and isinstance(f.value, ast.Name) and f.value.id not in self.lty) else None
+        if name in VALUE_RECORDS and name not in self.lty and len(n.args) == VALUE_RECORDS[name]:
+            return n.args
+        return None
+
     def e(self, n):
+        if isinstance(n, ast.SetComp) and len(n.generators) == 1 and len(n.generators[0].ifs) == 1 \
+                and isinstance(n.generators[0].target, ast.Name) and isinstance(n.elt, ast.Name) \
+                and n.elt.id == n.generators[0].target.id and self.enum_values(n.generators[0].iter) is not None:
+            # {r for r in Enum if c}: the set of member values satisfying c, as the list in definition order
+            var = ident(n.generators[0].target.id)
+            saved = dict(self.lty)
+            self.lty[var] = "Int"
+            c = self.p(n.generators[0].ifs[0])
+            self.lty = saved
+            return "(([%s] : List Int).filter (fun (%s : Int) => decide %s))" % (
+                ", ".join(str(v) for v in self.enum_values(n.generators[0].iter)), var, c)
+        rv = self.record_value(n)
+        if rv is not None:
+            return "(" + ", ".join(self.e(a) for a in rv) + ")"
         if isinstance(n, ast.Subscript) and isinstance(n.slice, ast.Constant) and isinstance(n.slice.value, int) \
                 and isinstance(n.value, ast.Call) and self.struct_call(n.value) is not None \
                 and self.struct_call(n.value)[0] != "pack":
@@ -1380,6 +1425,13 @@ class Tr(object):
                 raise NotImplementedError("return with a value in a generator")
             return "(Except.ok out_)" if self.is_exc() else "out_"
         base = self.base()
+        if base.startswith("opt:"):
+            # `return None` / `return e` of a function whose result may be None
+            if v is None or (isinstance(v, ast.Constant) and v.value is None):
+                r = self.with_state("none")
+            else:
+                r = self.with_state("(some %s)" % self.e(v))
+            return "(Except.ok %s)" % r if self.is_exc() else r
         if v is None or (isinstance(v, ast.Constant) and v.value is None):
             if base != "none":
                 raise NotImplementedError("return None in a function declared " + self.ret)
@@ -1557,6 +1609,8 @@ class Tr(object):
                 raise NotImplementedError("unpacking %d struct values into %d targets" % (n_vals, len(names)))
             text = ""
             for i, nm in enumerate(names):
+                if nm == "_":
+                    continue
                 ty = self.lty.get(nm, "Int")
                 if ty == "Option Int":
                     text += "%slet %s : Option Int := some (%s.getD %d 0)\n" % (pad, nm, tmp, i)
@@ -1981,8 +2035,33 @@ def module_enums(repo, rel, tree):
         base = (pkg[:len(pkg) - (n.level - 1)] if n.level else []) + (n.module.split(".") if n.module else [])
         for a in n.names:
             path = os.path.join(repo, *(base + [a.name])) + ".py"
+            init = os.path.join(repo, *(base + [a.name, "__init__.py"]))
             if a.asname is None and os.path.exists(path):
                 out[a.name] = int_enums(ast.parse(open(path).read()), values_only=False)
+            elif a.asname is None and os.path.exists(init):
+                # a package: the IntEnum classes its __init__ re-exports by `from <module of the repo> import Name`
+                out[a.name] = visible_enums(repo, os.path.join(*(base + [a.name, "__init__.py"])),
+                                            ast.parse(open(init).read()))
+    return out
+
+
+def module_str_consts(repo, rel, tree):
+    """`module.NAME` string constants of modules imported as a name: module -> {NAME: str}"""
+    out = {}
+    pkg = os.path.dirname(rel).split("/")
+    for n in tree.body:
+        if not isinstance(n, ast.ImportFrom):
+            continue
+        base = (pkg[:len(pkg) - (n.level - 1)] if n.level else []) + (n.module.split(".") if n.module else [])
+        for a in n.names:
+            path = os.path.join(repo, *(base + [a.name])) + ".py"
+            if a.asname is None and os.path.exists(path):
+                t = ast.parse(open(path).read())
+                names = [x.id for m in ast.walk(t) if isinstance(m, ast.Assign) for x in m.targets if isinstance(x, ast.Name)]
+                out[a.name] = dict((m.targets[0].id, m.value.value) for m in t.body if isinstance(m, ast.Assign)
+                                   and len(m.targets) == 1 and isinstance(m.targets[0], ast.Name)
+                                   and isinstance(m.value, ast.Constant) and isinstance(m.value.value, str)
+                                   and names.count(m.targets[0].id) == 1)
     return out
 
 
@@ -2096,6 +2175,7 @@ def translate(repo, rel, fname, ptypes, ret, done=None):
     tr = Tr(types, cls=cls, enums=visible_enums(repo, rel, tree), done=done, attrs=attrs, recs=recs)
     tr.local_enums = local_enums
     tr.module_enums = module_enums(repo, rel, tree)
+    tr.module_strs = module_str_consts(repo, rel, tree)
     tr.obj_spec = next((t for t in ptypes if t.startswith("obj:")), None)
     tr.attr_specs = [x for x in (tr.obj_spec or "obj:")[4:].split(";")[0].split(",") if x]
     tr.objname = objname
